@@ -65,13 +65,13 @@ RdySticky == \A c \in Changes : rdy[c] => E.st.rdy[c]
 
 StartSnapOK(s) ==
   LET snapst == [t \in Tasks |-> s.snap[t]] IN
-  /\ s.ph = "do"   => \A w \in waits[s.t] : snapst[w] = "Done"
-  /\ s.ph = "undo" => \A h \in Halts(s.t) : IsReadyS(snapst[h])
+  /\ snapst[s.t] = "Do"   => \A w \in waits[s.t] : snapst[w] = "Done"
+  /\ snapst[s.t] = "Undo" => \A h \in Halts(s.t) : IsReadyS(snapst[h])
   /\ s.at = 0 \/ s.at <= s.now
   /\ snapst[s.t] \in (IF s.ph = "do" THEN {"Do", "Doing"} ELSE {"Undo", "Undoing"})
 StartRevOK(s) ==
   LET snapst == [t \in Tasks |-> s.snap[t]] IN
-  s.ph = "undo" => \A h \in Halts(s.t) : IsReadyS(snapst[h]) /\ h \notin running
+  snapst[s.t] = "Undo" => \A h \in Halts(s.t) : IsReadyS(snapst[h]) /\ h \notin running
 StartRedoOK(s) ==
   /\ s.ph = "do"   => s.t \notin everDone
   /\ s.ph = "undo" => s.t \notin everUndone
@@ -121,7 +121,10 @@ TEnsure ==
   /\ a_c02bad' = (a_c02bad \/ \E i \in DOMAIN E.starts : ~StartSnapOK(E.starts[i]))
   /\ a_revbad' = (a_revbad \/ \E i \in DOMAIN E.starts : ~StartRevOK(E.starts[i]))
   /\ a_redobad' = (a_redobad \/ \E i \in DOMAIN E.starts : ~StartRedoOK(E.starts[i]))
-  /\ a_rerunbad' = (a_rerunbad \/ ~(needRerun \subseteq {E.starts[i].t : i \in DOMAIN E.starts}))
+  \* tasks that were in flight at the restart and are still Doing/Undoing and due when this pass begins
+  \* (an abort or a retry delay in between legitimately changes that) must be run again by this pass
+  /\ a_rerunbad' = (a_rerunbad \/ ~({t \in needRerun : status[t] \in {"Doing", "Undoing"} /\ (atTime[t] = 0 \/ atTime[t] <= now)}
+                                      \subseteq {E.starts[i].t : i \in DOMAIN E.starts}))
   /\ needRerun' = {}
   /\ a_lostbad' = a_lostbad /\ a_stuck' = a_stuck /\ a_stopbad' = a_stopbad
 
